@@ -140,6 +140,26 @@ def check_hash_input_coverage(ck, R):
             ck.ob(R, outer.key(r, "return-after-" + attr), ok, "this return is reached only after %s was read" % attr if ok else
                   "fn_code_hash can return a code hash without reading %s on that path (early return / cache keyed by the code object): "
                   "a definition re-executed with only a default changed keeps its version" % attr, outer.where(r))
+    # the defaults are read from the same (unwrapped) object whose code is hashed
+    code_reads = [n for st in outer.stmts() for n in A.walk_local(st)
+                  if (isinstance(n, ast.Call) and A.call_attr(n) == "getattr" and len(n.args) >= 2 and A.const_str(n.args[1]) == "__code__")
+                  or (isinstance(n, ast.Attribute) and n.attr == "__code__" and isinstance(n.ctx, ast.Load))]
+    if code_reads:
+        subj = code_reads[0].args[0] if isinstance(code_reads[0], ast.Call) else code_reads[0].value
+        if isinstance(subj, ast.Name):
+            for (attr, st) in def_reads:
+                for n in A.walk_local(st):
+                    rd = None
+                    if isinstance(n, ast.Call) and A.call_attr(n) == "getattr" and len(n.args) >= 2 and A.const_str(n.args[1]) == attr and isinstance(n.args[0], ast.Name):
+                        rd = n.args[0]
+                    if isinstance(n, ast.Attribute) and n.attr == attr and isinstance(n.value, ast.Name):
+                        rd = n.value
+                    if rd is not None:
+                        same = rd.id == subj.id and all(outer.df.same_defs(subj.id, a, b) for a in outer.nodes(st) for b in outer.nodes(code_reads[0]))
+                        ck.ob(R, outer.key(None, "same-object:" + attr), same,
+                              "%s is read from the object whose code is hashed" % attr if same else
+                              "%s is read from another object than the one whose __code__ is hashed (before/after unwrapping decorators): for a "
+                              "functools.wraps-decorated function the wrapper's defaults are hashed, so editing a default keeps the version" % attr, outer.where(st))
     # the code of the *unwrapped* function is hashed
     unw = [w for w in outer.stmts(ast.While) if "__wrapped__" in A.norm(w.test)]
     ck.ob(R, outer.key(None, "unwrap"), bool(unw), "decorator wrappers are unwrapped before hashing" if unw else
@@ -291,6 +311,19 @@ def check_descent_complete(ck, R):
     g = FA(ck, CH + ".GlobalVariableHashRule.collect_transitive_dependencies")
     okg = bool([c for c in g.calls("add") if [A.norm(a) for a in c.args] == ["self"]]) and not g.stmts(ast.If)
     ck.ob(R, g.key(None, "adds-self"), okg, "variable rules always join the rule set" if okg else "a variable rule can be left out of the rule set", g.where())
+    # the traversal's parameters other than the accumulator are read-only (mutating the shared
+    # scope / blacklist makes the rule set depend on the visiting order of a set)
+    for q in [c.qual + ".collect_transitive_dependencies" for c in hash_rule_classes(ck)] + [CH + ".HashRule._visit_dependency"]:
+        f = ck.repo.try_func(q)
+        if f is None:
+            continue
+        fx = FA(ck, f)
+        bad = [c for c in fx.calls() if isinstance(c.func, ast.Attribute) and isinstance(c.func.value, ast.Name)
+               and c.func.value.id in ("package_scope", "blacklist", "root_fn") and c.func.attr in ("add", "update", "append", "remove", "discard", "extend", "clear", "pop", "insert")]
+        bad += [s_ for s_ in fx.stmts((ast.AugAssign,)) if isinstance(s_.target, ast.Name) and s_.target.id in ("package_scope", "blacklist")]
+        ck.ob(R, fx.key(None, "params-read-only"), not bad, "scope and blacklist are only read" if not bad else
+              "`%s` mutates a traversal parameter shared by the whole descent: whether a helper gets a rule then depends on whether it is "
+              "visited before or after (set iteration order, i.e. the hash seed)" % A.short(bad[0], 60), fx.where(bad[0] if bad else None))
     # _visit_dependency: every resolved rule is descended into before returning
     v = FA(ck, CH + ".HashRule._visit_dependency")
     colls = v.nodes_all(v.calls("collect_transitive_dependencies"))
@@ -385,7 +418,12 @@ def check_version_taint(ck, R):
         n += 1
         d = fa.deps(v)
         tainted = [x for x in d if x in ("call:version", "attr:self._calculated_version", "call:_recompute_version")]
-        ck.ob(R, fa.qual + "::MementoFunction(version=)", not tainted,
+        # a computed version that is not refreshed first is additionally stale
+        if "attr:self._calculated_version" in d:
+            ck.ob(R, fa.qual + "::MementoFunction(version=)::unrefreshed", False,
+                  "the clone's version is taken from self._calculated_version without going through version(): after a tracked variable changed, "
+                  "a modifier clone created before the next query keeps the old version and serves old results", fa.where(call))
+        ck.ob(R, fa.qual + "::MementoFunction(version=%s)" % A.norm(v), not tainted,
               "the declared-version slot receives only a declared version" if not tainted else
               "the clone is constructed with version=<computed version> (%s): it counts as explicitly versioned, so dependency "
               "enforcement is skipped for calls it makes and its version is pinned when dependencies are redefined" % A.short(v, 50), fa.where(call))
@@ -707,6 +745,14 @@ def check_did_change(ck, R):
         captured = want.get(cls.name, ())
         ok = False
         why = ""
+        allowed_false_guard = {"GlobalVariableHashRule": ("self.last_value is None",)}.get(cls.name, ())
+        for r in fa.returns():
+            if isinstance(r.value, ast.Constant) and r.value.value is False:
+                g = fa.enclosing(r, ast.If)
+                okg = g is not None and A.norm(g.test) in allowed_false_guard
+                ck.ob(R, fa.key(r, "no-shortcut"), okg, "`return False` only when nothing is tracked" if okg else
+                      "%s.did_change answers False early under `%s`: a value changed without re-binding the name (list.append, dict[k] = v) or "
+                      "an equal-looking replacement is never noticed" % (cls.name, A.short(g.test, 50) if g is not None else "no guard"), fa.where(r))
         rets = [r for r in fa.returns() if r.value is not None and not (isinstance(r.value, ast.Constant) and r.value.value is False and fa.enclosing(r, ast.If) is not None)]
         if not rets:
             why = "returns a constant"
@@ -881,6 +927,32 @@ def check_dotted_names(ck, R):
     ck.ob(R, fa.key(None, "local-rooted-chains"), okc, "a dotted name is dropped only when its first component is a local" if okc else
           "dotted names are not filtered by membership of their first component in the locals (e.g. a string-prefix test): "
           "`steps.base` is dropped when a parameter is called `step`, and the dependency disappears from the closure", fa.where())
+    # nothing else narrows the name set between extraction and return
+    narrow = []
+    for st in fa.stmts():
+        if isinstance(st, ast.Assign) and any(isinstance(t, ast.Name) and t.id == "result" for t in st.targets):
+            if A.norm(st.value) not in ("extractor.references",):
+                narrow.append(st)
+        if isinstance(st, ast.AugAssign) and isinstance(st.target, ast.Name) and st.target.id == "result":
+            narrow.append(st)
+        if isinstance(st, ast.Expr) and isinstance(st.value, ast.Call) and A.norm(A.call_recv(st.value)) == "result" \
+                and A.call_attr(st.value) in ("difference_update", "intersection_update", "discard", "remove", "clear", "pop", "symmetric_difference_update"):
+            if not (A.call_attr(st.value) == "difference_update" and [A.norm(a) for a in st.value.args] in (["local_vars"], ["to_remove"])):
+                narrow.append(st)
+    ck.ob(R, fa.key(None, "no-further-narrowing"), not narrow, "the extracted names are only reduced by the locals" if not narrow else
+          "the extracted name set is narrowed further (`%s`): names the function really refers to (e.g. only inside a nested lambda or generator) "
+          "are dropped, and edits to them never change the version" % A.short(narrow[0], 70), fa.where(narrow[0] if narrow else None))
+    # the parse cache is keyed by the function object itself (a redefinition is a new object)
+    cache_keys = set()
+    for n in A.walk_body(fa.node):
+        if isinstance(n, ast.Subscript) and A.norm(n.value) == "_dotted_names_cache":
+            cache_keys.add(A.norm(n.slice))
+        if isinstance(n, ast.Compare) and len(n.ops) == 1 and isinstance(n.ops[0], (ast.In, ast.NotIn)) and A.norm(n.comparators[0]) == "_dotted_names_cache":
+            cache_keys.add(A.norm(n.left))
+    okk = cache_keys <= {"fn"}
+    ck.ob(R, fa.key(None, "cache-keyed-by-object"), okk, "the name cache is keyed by the function object" if okk else
+          "the name cache is keyed by %s instead of the function object: a function redefined in place (same module, name and line) gets the "
+          "names of its OLD body, so its new dependencies are missed and calls to them are refused" % sorted(cache_keys - {"fn"}), fa.where())
     src = [c for c in fa.calls("getsource")]
     okg = len(src) == 1 and [A.norm(a) for a in src[0].args] == ["fn"]
     ck.ob(R, fa.key(None, "own-source"), okg, "the function's own source is parsed" if okg else "list_dotted_names does not parse inspect.getsource(fn)", fa.where())
